@@ -19,7 +19,7 @@ def add(pid, category, text, technique, engine, design_ref, note):
     CHECKS[pid] = dict(category=category, text=text, technique=technique, engine=engine, design_ref=design_ref, note=note)
 
 
-add("C19", "other",
+add("C19", "translation_validation",
     "Bounded symbolic execution (CrossHair/z3) of the real aggregate_node_transformer: the function name is any string of length <= 5, "
     "argument and keyword counts are solver variables, 8 syntactic positions; every partition must come back 'confirmed over all paths' "
     "against a reference lowering. The value of the folds (len/sum/max/min for every integer sequence up to the bound) is decided by z3 "
@@ -36,7 +36,7 @@ add("C16", "model_checking",
     "(branching), with the metadata values as unbounded solver integers; after each step lookups are compared with a reference inheritance map and "
     "the AST/dump/hash received by executors with the twin history without QMetaData. Verdict per partition from CrossHair/z3 over all paths.",
     "symbolic execution of the real code over symbolic histories (CrossHair -> z3)", "S", "DESIGN.md 3/C16", S_NOTE)
-add("C17", "other",
+add("C17", "translation_validation",
     "Bounded symbolic execution (CrossHair/z3) of change_extension_functions_to_calls with two fully symbolic attribute names (any string up to 12 "
     "characters) at different depths in 6 program shapes x 0..2 extra arguments; oracle: reference bottom-up conversion, idempotence, no method-form "
     "operator left. Semantic equality of both forms is decided by z3 translation validation on mixed-form programs.",
@@ -56,7 +56,7 @@ add("C14", "other",
     "Bounded symbolic execution (CrossHair/z3) of the real simplifier on 7 packaging kinds x 6 consumer chains x 3 binder naming schemes with symbolic "
     "tuple arity, projection index and dictionary key strings; oracle: no tuple/list/dict construction and no constant projection is left outside the final result.",
     "symbolic execution of the real code (CrossHair -> z3), per-partition 'confirmed over all paths'", "S", "DESIGN.md 3/C14", S_NOTE)
-add("C18", "other",
+add("C18", "translation_validation",
     "Bounded symbolic execution (CrossHair/z3) of the real simplifier on literal projections with a symbolic selector (8 selector kinds, int in [-5,5], any "
     "str len<=2) in 4 positions x 5 container kinds: the result must compile/unparse or be the dedicated index error exactly when allowed. Semantic "
     "intactness of the untouched sub-expression is decided by z3 translation validation.",
@@ -66,6 +66,34 @@ add("C20", "other",
     "non-field annotations, one of 8 single edits, same edit on both); hashes must be equal iff structurally identical. Leaves are bounded and case-split "
     "(repr/md5 are C code). Cross-process stability and the three ways of supplying a lambda are checked concretely per run.",
     "symbolic execution of the real code (CrossHair -> z3), per-partition 'confirmed over all paths'", "S", "DESIGN.md 3/C20", S_NOTE)
+
+add("C02", "translation_validation",
+    "SMT translation validation of the real simplify_chained_calls: for each schematic program (opaque attributes/methods are uninterpreted functions, "
+    "datasets are symbolic sequences up to length N) z3 decides Q0 (input can run; model replayed through CPython), Q1 (same value for every dataset and "
+    "interpretation) and Q2 (no error introduced). Programs: mechanism families under every legal binder naming, the exhaustive 2-stage grammar under a "
+    "decision bound with distinct and maximally re-used names, seeded random deeper programs.",
+    "SMT translation validation of the real transformer's output (z3, QF_UFLIA)", "T", "DESIGN.md 3/C02", T_NOTE)
+add("C06", "translation_validation",
+    "Comprehensions: SMT translation validation of resolve_syntatic_sugar (R gives comprehensions Python's meaning; z3 decides equality with the lowered "
+    "Where/Select chain for all datasets up to N, incl. filter order through guarded First()). Constructors: bounded symbolic execution (CrossHair/z3) of the "
+    "dataclass/NamedTuple lowering against Python's own argument binding with symbolic positional count, keyword mask/order and values.",
+    "SMT translation validation (z3) + symbolic execution of the real code (CrossHair -> z3)", "S+T", "DESIGN.md 3/C06", T_NOTE)
+add("C10", "other",
+    "Bounded symbolic execution (CrossHair/z3) of Select/SelectMany/Where on an untyped stream over a solver-split expression grammar: every root form x "
+    "operand position x child form (13x13 forms) with symbolic integer constants, dictionary keys and tuple indices; the emitted lambda must be structurally "
+    "identical, the only exceptions are the designed ValueErrors recognised from the input shape.",
+    "symbolic execution of the real code (CrossHair -> z3), per-partition 'confirmed over all paths'", "S", "DESIGN.md 3/C10", S_NOTE)
+add("C11", "model_checking",
+    "Bounded model checking of derive/execute histories (3 operations quick, up to 4 thorough, over a forest rooted in a typed and an untyped dataset, "
+    "lambda ASTs shared between steps) by symbolic execution of the whole library path; after every step the identity+structure snapshot and item type of "
+    "every live stream must be unchanged.",
+    "symbolic execution of the real code over symbolic histories (CrossHair -> z3)", "S", "DESIGN.md 3/C11", S_NOTE)
+add("C12", "model_checking",
+    "Bounded model checking of execution schedules: which prepared streams are executed (up to 3 concurrently), the completion order of their executors "
+    "(coroutines stepped by hand, executor suspended on a gate), the failing execution, override executors and the title (symbolic string) are solver "
+    "variables; oracle: one executor call per execution on the right executor with the stream's query minus empty MetaData and the very title, result or "
+    "exception delivered to the right awaiter; root lookup. value() through make_sync is exercised concretely.",
+    "symbolic execution of the real code over symbolic schedules (CrossHair -> z3)", "S", "DESIGN.md 3/C12", S_NOTE)
 
 NOT_YET = {}
 
